@@ -62,18 +62,21 @@ def _loc_update(l, cur):
         cur[0] = l["file"]
 
 
-def extract_decls(cc_args, header_path, relname):
-    """Declarations located in header_path when a translation unit `#include <relname>` is parsed.
-    Returns (functions, variables, macro_made, error)."""
-    src = "#include <%s>\n" % relname
+def extract_decls(cc_args, hdrs):
+    """Declarations located in the installed headers when ONE translation unit including all of them (sc.h first)
+    is parsed.  hdrs = [(path, relname)].  Returns (functions, variables, macro_made) as [(name, relname)], error."""
+    rels = [r for _, r in hdrs]
+    order = [r for r in rels if r == "sc.h"] + [r for r in rels if r != "sc.h"]
+    src = "".join("#include <%s>\n" % r for r in order)
     p = subprocess.run(["clang", "-x", "c", "-fsyntax-only", "-w"] + cc_args + ["-Xclang", "-ast-dump=json", "-"],
                        input=src.encode(), stdout=subprocess.PIPE, stderr=subprocess.PIPE)
     if p.returncode != 0:
-        return [], [], [], p.stderr.decode()[-600:]
+        return [], [], [], p.stderr.decode()[-800:]
     tu = json.loads(p.stdout.decode())
     cur = [None]
     funs, vars_, macro = [], [], []
-    real = os.path.realpath(header_path)
+    byreal = dict((os.path.realpath(pth), rel) for pth, rel in hdrs)
+    realcache = {}
 
     def walk(n, top):
         ismacro = False
@@ -84,20 +87,36 @@ def extract_decls(cc_args, header_path, relname):
         if "range" in n:
             _loc_update(n["range"]["begin"], cur)
             _loc_update(n["range"]["end"], cur)
-        if top and myfile and os.path.realpath(myfile) == real and not n.get("isImplicit"):
+        if top and myfile and not n.get("isImplicit"):
+            if myfile not in realcache:
+                realcache[myfile] = os.path.realpath(myfile)
+            rel = byreal.get(realcache[myfile])
             k = n.get("kind")
-            if k == "FunctionDecl":
+            if rel is not None and k == "FunctionDecl":
                 has_body = any(c.get("kind") == "CompoundStmt" for c in n.get("inner", []))
                 if not has_body and n.get("storageClass") != "static":
-                    (macro if ismacro else funs).append(n["name"])
-            elif k == "VarDecl" and n.get("storageClass") == "extern":
-                (macro if ismacro else vars_).append(n["name"])
+                    (macro if ismacro else funs).append((n["name"], rel))
+            elif rel is not None and k == "VarDecl" and n.get("storageClass") == "extern":
+                (macro if ismacro else vars_).append((n["name"], rel))
         for c in n.get("inner", []):
             if isinstance(c, dict):
                 walk(c, False)
     for c in tu.get("inner", []):
         walk(c, True)
     return funs, vars_, macro, None
+
+
+def standalone_check(cc_args, relname):
+    """does `#include <relname>` compile on its own?  Returns None, or 'needs-sc.h', or the error text."""
+    def tryit(src):
+        p = subprocess.run(["clang", "-x", "c", "-fsyntax-only", "-w"] + cc_args + ["-"], input=src.encode(),
+                           stdout=subprocess.PIPE, stderr=subprocess.PIPE)
+        return p.returncode, p.stderr.decode()[-500:]
+    rc, err = tryit("#include <%s>\n" % relname)
+    if rc == 0:
+        return None
+    rc2, err2 = tryit("#include <sc.h>\n#include <%s>\n" % relname)
+    return "needs-sc.h" if rc2 == 0 else err
 
 
 def nm_defined(paths):
@@ -210,17 +229,14 @@ def survey(vlib, scratch, REPO, only=None):
         cc_args = ["-I" + incdir, "-I" + os.path.join(REPO, "src")]
         if v.cc == "mpicc":
             cc_args += subprocess.run(["mpicc", "--showme:compile"], stdout=subprocess.PIPE).stdout.decode().split()
+        declared, dvars, macro, err = extract_decls(cc_args, hdrs)
+        errors = [("<all installed headers>", err)] if err else []
         with ThreadPoolExecutor(max_workers=vlib.NCPU) as ex:
-            results = list(ex.map(lambda h: extract_decls(cc_args, h[0], h[1]), hdrs))
-        declared, dvars, macro, errors = [], [], [], []
-        for (path, rel), (f, va, mc, err) in zip(hdrs, results):
-            if err:
-                errors.append((rel, err))
-            declared += [(x, rel) for x in f]
-            dvars += [(x, rel) for x in va]
-            macro += [(x, rel) for x in mc]
+            alone = list(ex.map(lambda h: standalone_check(cc_args, h[1]), hdrs))
+        needs_sc = [rel for (_, rel), r in zip(hdrs, alone) if r == "needs-sc.h"]
+        errors += [(rel, r) for (_, rel), r in zip(hdrs, alone) if r not in (None, "needs-sc.h")]
         dfun, dobj = nm_defined([v.lib] + extra)
-        res.append((name, dict(declared=declared, declared_vars=dvars, macro_made=macro, errors=errors, defined=dfun, defined_objs=dobj,
+        res.append((name, dict(declared=declared, declared_vars=dvars, macro_made=macro, errors=errors, needs_sc=needs_sc, defined=dfun, defined_objs=dobj,
                                system=system_exports(v.cc, v.ldflags), variant=v, extra=extra, headers=hdrs)))
     return res
 
@@ -269,7 +285,7 @@ def register(GROUPS, c2g, incs, REPO, HERE, STRUCTS, Group):
             t += "Definition known_%s : list string :=\n  %s.\n\n" % (name, coq_list(known))
             names.append(name)
         t += "Definition configs : list (string * list string * list string * list string) :=\n  [%s].\n" % ";\n   ".join(
-            '("%s", declared_%s, defined_%s ++ system_%s, known_%s)' % (n, n, n, n, n) for n in names)
+            '("%s", declared_%s, (defined_%s ++ system_%s)%%list, known_%s)' % (n, n, n, n, n) for n in names)
         t += "\n(* headers the install rule installs (relative to the include directory) *)\n"
         t += "Definition installed_headers : list string :=\n  %s.\n" % coq_list(sorted(set(rel for _, d in sv for _, rel in d["headers"])))
         g.add(t, dict(name="configs", configs=names))
@@ -348,7 +364,7 @@ def register(GROUPS, c2g, incs, REPO, HERE, STRUCTS, Group):
         text = T.stmts(list(body.get("inner", [])), env, K)
         # parameters: C parameters first (in declaration order), then the fields read
         cparams = [p["name"] for p in fn.get("inner", []) if p.get("kind") == "ParmVarDecl" and p.get("name")]
-        order = lambda x: (0, cparams.index(x)) if x in cparams else ((1, cparams.index(x[:-6]) if x[:-6] in cparams else 99) if x.endswith("_deref") else (2, x))
+        order = lambda x: (0, cparams.index(x)) if x in cparams else ((1, cparams.index(x[:-6]) if x[:-6] in cparams else 99) if x.endswith("_deref") else (2, T.params.index(x)))
         params = sorted(T.params, key=order)
         out = "Definition %s %s :=\n%s.\n" % (T.gname, " ".join("(%s : Z)" % p for p in params), text)
         return out, dict(name=T.gname, cname=fn["name"], params=params, outputs=(["ret"] if has_ret else []) + outs, fuel=False)
